@@ -188,7 +188,7 @@ def worlds():
     W["sta"] = (sta, {
         "sets": [("sta", "stat_upper", 5.0), ("sta", "change_detector__min_segment_length", 2), ("inner", "penalty_scale", 0.5),
                  ("sta", "change_detector__penalty_scale", 2.0)],
-        "data": ("A", "Ap")})
+        "data": ("A", "A+U")})  # different lengths: PELT's fitted penalty depends on n
 
     def capa_shared():
         c = co.L2Cost(param=0.0)
@@ -215,7 +215,9 @@ def worlds():
                                           "data": ("A", "B")})
 
     def sta_mw():
-        inner = cd.MovingWindow(bandwidth=2, threshold_scale=0.1)
+        # tuned threshold: the wrapped detector's fit depends on its training data, so an anomaliser that
+        # re-uses the user's (already fitted) detector instead of fitting a clone is visible
+        inner = cd.MovingWindow(bandwidth=2, threshold_scale=None, level=0.3)
         return {"inner": inner, "sta": ad.StatThresholdAnomaliser(inner, stat=np.median, stat_lower=1.0, stat_upper=3.0)}
 
     W["sta-mw"] = (sta_mw, {"sets": [("sta", "stat_lower", 0.1), ("sta", "change_detector__bandwidth", 3), ("inner", "threshold_scale", 0.5)],
